@@ -1042,12 +1042,63 @@ func foldSlice(v ssa.Value, seen map[ssa.Value]bool, fields map[fieldOrigin]bool
 	}
 }
 
+// foldsParamInPlace: h lower-cases every element of its slice parameter i in place (a loop over
+// the whole parameter that stores the folded element back); -1 if it does no such thing.
+func foldsParamInPlace(h *ssa.Function) int {
+	if h == nil || len(h.Blocks) == 0 {
+		return -1
+	}
+	for _, b := range h.Blocks {
+		if !inLoop(b) {
+			continue
+		}
+		for _, in := range b.Instrs {
+			st, ok := in.(*ssa.Store)
+			if !ok {
+				continue
+			}
+			ia, ok := st.Addr.(*ssa.IndexAddr)
+			if !ok {
+				continue
+			}
+			var lowered bool
+			foldSlice(st.Val, map[ssa.Value]bool{}, map[fieldOrigin]bool{}, &lowered)
+			if !lowered {
+				continue
+			}
+			for i, p := range h.Params {
+				if ia.X == ssa.Value(p) {
+					return i
+				}
+			}
+		}
+	}
+	return -1
+}
+
 func inPlaceFold(f *ssa.Function, s ssa.Value) bool {
 	fb := map[fieldOrigin]bool{}
 	var dummy bool
 	foldSlice(s, map[ssa.Value]bool{}, fb, &dummy)
 	for _, b := range f.Blocks {
 		for _, in := range b.Instrs {
+			// a helper that folds its argument in place, called on the same field
+			if call, ok := in.(*ssa.Call); ok {
+				if h := call.Call.StaticCallee(); h != nil && ssax.InModule(h) {
+					if pi := foldsParamInPlace(h); pi >= 0 && pi < len(call.Call.Args) {
+						fa := map[fieldOrigin]bool{}
+						foldSlice(call.Call.Args[pi], map[ssa.Value]bool{}, fa, &dummy)
+						for o := range fa {
+							if fb[o] {
+								return true
+							}
+						}
+						if call.Call.Args[pi] == s {
+							return true
+						}
+					}
+				}
+			}
 			st, ok := in.(*ssa.Store)
 			if !ok {
 				continue
@@ -1291,6 +1342,18 @@ func Fold(w *load.World, c *core.Collector) {
 			folded := map[string]bool{}
 			for _, b := range f.Blocks {
 				for _, in := range b.Instrs {
+					if call, ok := in.(*ssa.Call); ok {
+						if h := call.Call.StaticCallee(); h != nil && ssax.InModule(h) {
+							if pi := foldsParamInPlace(h); pi >= 0 && pi < len(call.Call.Args) {
+								fields := map[fieldOrigin]bool{}
+								var dummy bool
+								foldSlice(call.Call.Args[pi], map[ssa.Value]bool{}, fields, &dummy)
+								for o := range fields {
+									folded[o.field] = true
+								}
+							}
+						}
+					}
 					st, ok := in.(*ssa.Store)
 					if !ok {
 						continue
